@@ -9,6 +9,7 @@ import Pcore.Proofs.FilesFlat
 import Pcore.Proofs.FilesKinds
 import Pcore.Proofs.FilesDeep
 import Pcore.Proofs.FilesAncestor
+import Pcore.Proofs.FilesTypeset
 /-!
 # C15 — File-based loading maps names to definition files faithfully
 
@@ -72,7 +73,13 @@ Full statement / proved / missing
   three and more segments through a module's loader / the dependency loader.  `C15_ancestor_loaded`, `C15_ancestor_error`
   (proved, global loader) — a name whose PARENT has a plain file: the parent is loaded on the way and the child stays
   absent; a defective parent file is the error of the child's lookup.
-* missing: the "if" half for type sets and for several existing ancestors at once (type-set parent search); it is false as
+* `C15_typeset_toplevel`, `C15_init_typeset_toplevel`, `C15_member_via_parent_search`, `C15_member_cached` (proved, for a
+  TOP-LEVEL loader as the context's loader: the global loader, a module's loader in the flat topology) — type sets with
+  any number of members at any depth: loading one (index route and the module's `init_typeset` route) finds it, reads its
+  file only, defines every member (kind by position) and leaves exactly `typesetState`; a member requested first is found
+  through the parent search; members afterwards are answered from the cache.
+* missing: type sets through a module loader below the global loader / through the dependency loader (the same resolution
+  repeated per loader on the route), several existing ancestors at once; it is false as
   stated for layouts that define one name twice (`C15_duplicate_redefine`, known finding C15-duplicate-redefine) and the
   error of a misnamed file carries no line (`C15_misnamed_no_line`, known finding C15-misnamed-no-line).  Termination
   (`diverges` unreachable for enough fuel) is not proved; the correspondence run never observed it.  The OS (Walk order,
@@ -848,6 +855,101 @@ example : QuietAnc (deepCfg .g) .g {} ["Ns", "A"] ∧ definedBy (.typ .alias ["N
     (loadS 14 (deepCfg .g) {} ["Ns", "Bad", "X"]).1 = .failed (.reported "PARSE_ERROR" (some ["env", "types", "ns", "bad.pp"]) 4) ∧
     (loadS 17 (deepCfg .d) {} ["Mymod", "Sub"]).1 = .notfound ∧ (loadS 17 (deepCfg .d) {} ["Mymod", "Sub"]).2.reads = [] := by
   refine ⟨quietAnc_of_check (by decide), by decide, by decide, by decide, by decide, by decide, by decide⟩
+
+/-! ## type sets: loading one, member resolution, the parent search that finds one, `init_typeset` -/
+
+/-- the lookup of a type set through a TOP-LEVEL loader that is the context's loader (the global loader; a module's loader
+    in the flat topology), for any number of members and any depth of name: found; the file is the only read; on the way
+    every member is looked up through the defining loader (a complete miss: one placeholder) and defined over it with the
+    kind its position dictates; finally the type set is defined over the placeholder of the requested name
+    (`typesetState`).  `MemHyp`: members are no core types, have no files of their own, are addressable; the proper
+    prefixes of the type set's name are cached or without origin. -/
+theorem C15_typeset_toplevel (cfg : Cfg) (l : Lid) (hv : cfg.via = l) (hl : TopLevel cfg l) (name nm : Name)
+    (ts : List String) (p : Path) (ps : List Path) (s : St) (k : Nat)
+    (hk : 3 * (nm.length + 1) + ts.length ≤ k)
+    (hsys : sysLoad name = none) (hroute : Routed l name) (hi : idx cfg l (keyOf name) = p :: ps)
+    (hb : bodyAt cfg.tree p = some (.typ .typeset nm ts)) (hkey : keyOf nm = keyOf name)
+    (hget : s.get l (keyOf name) = none)
+    (hh : MemHyp cfg l nm ((s.put l (keyOf name) none).addRead p) ts)
+    (hfresh : ∀ t ∈ ts, s.get l (keyOf (nm ++ [t])) = none) :
+    loadS (k+10) cfg s name = (.found ⟨.typeset, nm⟩, typesetState l name nm ts p s) ∧
+    (typesetState l name nm ts p s).reads = s.reads ++ [p] ∧
+    ∀ j t, ts[j]? = some t →
+      (typesetState l name nm ts p s).get l (keyOf (nm ++ [t])) = some (some ⟨kindAt j, nm ++ [t]⟩) :=
+  ⟨typeset_toplevel cfg l hv hl name nm ts p ps s k hk hsys hroute hi hb hkey hget hh hfresh,
+    typesetState_reads l name nm ts p s,
+    fun j t ht => typesetState_member l name nm ts p s hkey hh.nodup j t ht⟩
+
+/-- the module's own name through its (top-level) loader: `init_typeset.pp` is the file, the same resolution -/
+theorem C15_init_typeset_toplevel (cfg : Cfg) (mod : String) (hv : cfg.via = .m mod) (hflat : cfg.flat = true)
+    (hguard : cfg.guardInit = true) (hm : isGlobalMod mod = false) (a : String) (nm : Name)
+    (ts : List String) (o : Path) (os : List Path) (s : St) (k : Nat)
+    (hk : 3 * (nm.length + 1) + ts.length ≤ k)
+    (hsys : sysLoad [a] = none) (hparts : partsOf [a] = some [mod]) (hi : idx cfg (.m mod) ["init_typeset"] = o :: os)
+    (hb : bodyAt cfg.tree o = some (.typ .typeset nm ts)) (hkey : keyOf nm = keyOf [a])
+    (hget : s.get (.m mod) (keyOf [a]) = none)
+    (hh : MemHyp cfg (.m mod) nm ((s.put (.m mod) (keyOf [a]) none).addRead o) ts)
+    (hfresh : ∀ t ∈ ts, s.get (.m mod) (keyOf (nm ++ [t])) = none) :
+    loadS (k+9) cfg s [a] = (.found ⟨.typeset, nm⟩, typesetState (.m mod) [a] nm ts o s) :=
+  init_typeset_toplevel cfg mod hv hflat hguard hm a nm ts o os s k hk hsys hparts hi hb hkey hget hh hfresh
+
+/-- the parent search that FINDS a type set: a member is requested before its type set — there is no file for the member,
+    the type-set file of the parent name is loaded, the member is thereby defined and answered at once (kind by position,
+    name as the type set spells it); the type-set file is the only read -/
+theorem C15_member_via_parent_search (cfg : Cfg) (l : Lid) (hv : cfg.via = l) (hl : TopLevel cfg l) (child nm : Name)
+    (ts : List String) (p : Path) (ps : List Path) (s : St) (k : Nat)
+    (hk : 3 * (nm.length + 1) + ts.length ≤ k)
+    (hqual : qualified child = true)
+    (hsys : sysLoad child = none) (hroute : Routed l child) (hic : idx cfg l (keyOf child) = [])
+    (hgetc : s.get l (keyOf child) = none)
+    (hroutep : Routed l child.dropLast) (hi : idx cfg l (keyOf child.dropLast) = p :: ps)
+    (hb : bodyAt cfg.tree p = some (.typ .typeset nm ts)) (hkey : keyOf nm = keyOf child.dropLast)
+    (hget : s.get l (keyOf child.dropLast) = none)
+    (hh : MemHyp cfg l nm ((s.put l (keyOf child.dropLast) none).addRead p) ts)
+    (hfresh : ∀ t ∈ ts, s.get l (keyOf (nm ++ [t])) = none)
+    (j : Nat) (t : String) (ht : ts[j]? = some t) (hmem : keyOf (nm ++ [t]) = keyOf child) :
+    loadS (k+13) cfg s child = (.found ⟨kindAt j, nm ++ [t]⟩, typesetState l child.dropLast nm ts p s) :=
+  member_via_parent cfg l hv hl child nm ts p ps s k hk hqual hsys hroute hic hgetc hroutep hi hb hkey hget hh hfresh j t ht
+    hmem
+
+/-- member resolution afterwards: a name the loader holds a definition for is answered from the cache — nothing is read,
+    nothing changes (with `C15_typeset_toplevel`: every member of a loaded type set) -/
+theorem C15_member_cached (cfg : Cfg) (l : Lid) (hv : cfg.via = l) (hl : TopLevel cfg l) (name : Name) (s : St) (d : Def)
+    (n : Nat) (hsys : sysLoad name = none) (hget : s.get l (keyOf name) = some (some d)) :
+    loadS (n+2) cfg s name = (.found d, s) :=
+  toplevel_cached cfg l hv hl name s d n hsys hget
+
+def setCfg (via : Lid) : Cfg :=
+  { mods := ["mymod", "other"], via := via, flat := true,
+    tree := [(["env", "types", "geo", "shapes.pp"], .typ .typeset ["Geo", "Shapes"] ["Circle", "Square", "Tri"]),
+             (["modules", "mymod", "types", "init_typeset.pp"], .typ .typeset ["Mymod"] ["Ta", "Tb"]),
+             (["modules", "other", "types", "sub", "set.pp"], .typ .typeset ["Other", "Sub", "Set"] ["Leaf"])] }
+
+/-- non-vacuity: the hypotheses hold from the empty caches (`memHyp_of_check`) for a two-segment type set of three members
+    below the global loader, for a module's `init_typeset` and for a three-segment type set below a module; a member asked
+    first is found through the parent search (kind by position: the second member is an object), the type set and the
+    other members afterwards come from the cache; each file is read once -/
+example :
+    MemHyp (setCfg .g) .g ["Geo", "Shapes"]
+      ((({} : St).put .g (keyOf ["GEO", "shapes"]) none).addRead ["env", "types", "geo", "shapes.pp"]) ["Circle", "Square", "Tri"] ∧
+    Routed .g ["GEO", "shapes"] ∧ Routed .g ["Geo", "Shapes", "Square"] ∧
+    (runLoads 25 (setCfg .g) {} [["Geo", "Shapes", "SQUARE"], ["GEO", "shapes"], ["Geo", "Shapes", "Tri"], ["Geo", "Shapes", "Nope"]]).1 =
+      [.found ⟨.object, ["Geo", "Shapes", "Square"]⟩, .found ⟨.typeset, ["Geo", "Shapes"]⟩,
+       .found ⟨.alias, ["Geo", "Shapes", "Tri"]⟩, .notfound] ∧
+    (runLoads 25 (setCfg .g) {} [["Geo", "Shapes", "SQUARE"], ["GEO", "shapes"], ["Geo", "Shapes", "Tri"], ["Geo", "Shapes", "Nope"]]).2.reads =
+      [["env", "types", "geo", "shapes.pp"]] ∧
+    MemHyp (setCfg (.m "mymod")) (.m "mymod") ["Mymod"]
+      ((({} : St).put (.m "mymod") (keyOf ["MYMOD"]) none).addRead ["modules", "mymod", "types", "init_typeset.pp"]) ["Ta", "Tb"] ∧
+    MemHyp (setCfg (.m "other")) (.m "other") ["Other", "Sub", "Set"]
+      ((({} : St).put (.m "other") (keyOf ["Other", "Sub", "Set"]) none).addRead ["modules", "other", "types", "sub", "set.pp"]) ["Leaf"] ∧
+    (runLoads 25 (setCfg (.m "mymod")) {} [["MYMOD"], ["Mymod", "Tb"], ["Mymod", "Nope"]]).1 =
+      [.found ⟨.typeset, ["Mymod"]⟩, .found ⟨.object, ["Mymod", "Tb"]⟩, .notfound] ∧
+    (runLoads 25 (setCfg (.m "other")) {} [["Other", "Sub", "Set", "Leaf"], ["Other", "Sub", "Set"]]).1 =
+      [.found ⟨.alias, ["Other", "Sub", "Set", "Leaf"]⟩, .found ⟨.typeset, ["Other", "Sub", "Set"]⟩] ∧
+    (runLoads 25 (setCfg (.m "other")) {} [["Other", "Sub", "Set", "Leaf"], ["Other", "Sub", "Set"]]).2.reads =
+      [["modules", "other", "types", "sub", "set.pp"]] := by
+  refine ⟨memHyp_of_check (by decide), Or.inl ⟨rfl, Or.inl rfl⟩, Or.inl ⟨rfl, Or.inl rfl⟩, by decide, by decide,
+    memHyp_of_check (by decide), memHyp_of_check (by decide), by decide, by decide, by decide⟩
 
 /-! ## negation witnesses for the known findings -/
 
